@@ -18,13 +18,16 @@ import (
 	"crypto/sha512"
 	"encoding/hex"
 	"encoding/json"
+	"errors"
 	"fmt"
 	"hash"
 	"math/big"
 	"os"
+	"reflect"
 	"runtime"
 	"strings"
 	"testing"
+	"time"
 
 	"golang.org/x/crypto/md4"
 	"golang.org/x/crypto/pbkdf2"
@@ -37,6 +40,7 @@ type replayFile struct {
 	Params  map[string]int64  `json:"params"`
 	Inputs  []string          `json:"inputs"` // hex, in creation order
 	Stubs   []json.RawMessage `json:"stubs"`
+	Clock   []string          `json:"clock"` // harness clock readings, ns since 0001-01-01 UTC
 }
 
 var (
@@ -406,3 +410,194 @@ func OnesAdd(a, b []byte) []byte {
 	}
 	return out
 }
+
+// ---- clock and stub results (replay of harnesses that stub the environment) --------------------------
+
+type stubRec struct {
+	Name string            `json:"name"`
+	Kind string            `json:"kind"`
+	Outs []json.RawMessage `json:"outs"`
+}
+
+var (
+	stubQ    []stubRec
+	stubInit bool
+	clockIdx = -1
+)
+
+func timeFromNS(s string) time.Time {
+	ns, ok := new(big.Int).SetString(s, 10)
+	if !ok {
+		panic("bad time " + s)
+	}
+	sec, nsec := new(big.Int).DivMod(ns, big.NewInt(1000000000), new(big.Int))
+	return time.Unix(sec.Int64()-62135596800, nsec.Int64()).UTC()
+}
+
+// Now is the harness clock: under gosym one arbitrary instant per run (until AdvanceClock); natively
+// the recorded instant.  In linear-time harnesses the replay overlay routes time.Now() here.
+func Now() time.Time {
+	load()
+	if len(rf.Clock) == 0 {
+		return time.Now()
+	}
+	if clockIdx < 0 {
+		clockIdx = 0
+	}
+	if clockIdx >= len(rf.Clock) {
+		return timeFromNS(rf.Clock[len(rf.Clock)-1])
+	}
+	return timeFromNS(rf.Clock[clockIdx])
+}
+
+// AdvanceClock moves the harness clock to a later (or equal) arbitrary instant.
+func AdvanceClock() {
+	Now()
+	clockIdx++
+}
+
+// AnyTime is an arbitrary instant in years 0001..9999.
+func AnyTime() time.Time {
+	return timeFromNS(pop().String())
+}
+
+// Stub pops the next recorded stub result; outs are pointers that receive the recorded values.
+func Stub(name string, outs ...interface{}) error {
+	load()
+	if !stubInit {
+		stubInit = true
+		for _, raw := range rf.Stubs {
+			var r stubRec
+			if err := json.Unmarshal(raw, &r); err != nil {
+				panic(err)
+			}
+			stubQ = append(stubQ, r)
+		}
+	}
+	if len(stubQ) == 0 {
+		panic(fmt.Sprintf("zzverif: no recorded result left for stub %s (native run diverged from the symbolic path)", name))
+	}
+	r := stubQ[0]
+	stubQ = stubQ[1:]
+	if r.Name != name {
+		panic(fmt.Sprintf("zzverif: stub order mismatch: native run calls %s, recorded %s", name, r.Name))
+	}
+	callOK[name] = append(callOK[name], r.Kind != "err")
+	for i, o := range outs {
+		if i < len(r.Outs) {
+			fill(reflect.ValueOf(o).Elem(), r.Outs[i])
+		}
+	}
+	if r.Kind == "err" {
+		return errors.New("zzverif stub: " + name + " failed")
+	}
+	return nil
+}
+
+var timeType = reflect.TypeOf(time.Time{})
+
+func fill(v reflect.Value, raw json.RawMessage) {
+	if len(raw) == 0 || string(raw) == "null" {
+		return
+	}
+	if v.Type() == timeType {
+		var m struct{ T string }
+		if json.Unmarshal(raw, &m) == nil && m.T != "" {
+			v.Set(reflect.ValueOf(timeFromNS(m.T)))
+		}
+		return
+	}
+	switch v.Kind() {
+	case reflect.Bool:
+		var b bool
+		json.Unmarshal(raw, &b)
+		v.SetBool(b)
+	case reflect.Int, reflect.Int8, reflect.Int16, reflect.Int32, reflect.Int64:
+		var s string
+		json.Unmarshal(raw, &s)
+		n, _ := new(big.Int).SetString(s, 10)
+		v.SetInt(n.Int64())
+	case reflect.Uint, reflect.Uint8, reflect.Uint16, reflect.Uint32, reflect.Uint64, reflect.Uintptr:
+		var s string
+		json.Unmarshal(raw, &s)
+		n, _ := new(big.Int).SetString(s, 10)
+		v.SetUint(n.Uint64())
+	case reflect.String:
+		var m struct{ S string }
+		json.Unmarshal(raw, &m)
+		b, _ := hex.DecodeString(m.S)
+		v.SetString(string(b))
+	case reflect.Slice:
+		if v.Type().Elem().Kind() == reflect.Uint8 {
+			var m struct{ B string }
+			json.Unmarshal(raw, &m)
+			b, _ := hex.DecodeString(m.B)
+			v.Set(reflect.ValueOf(b).Convert(v.Type()))
+			return
+		}
+		var l []json.RawMessage
+		json.Unmarshal(raw, &l)
+		s := reflect.MakeSlice(v.Type(), len(l), len(l))
+		for i := range l {
+			fill(s.Index(i), l[i])
+		}
+		v.Set(s)
+	case reflect.Array:
+		var l []json.RawMessage
+		json.Unmarshal(raw, &l)
+		for i := range l {
+			if i < v.Len() {
+				fill(v.Index(i), l[i])
+			}
+		}
+	case reflect.Struct:
+		var m struct{ F map[string]json.RawMessage }
+		json.Unmarshal(raw, &m)
+		// start from the zero value: fields the symbolic run never looked at stay zero
+		v.Set(reflect.Zero(v.Type()))
+		for name, fr := range m.F {
+			f := v.FieldByName(name)
+			if f.IsValid() && f.CanSet() {
+				fill(f, fr)
+			}
+		}
+	case reflect.Ptr:
+		var m struct{ P json.RawMessage }
+		json.Unmarshal(raw, &m)
+		if len(m.P) == 0 {
+			return
+		}
+		if v.IsNil() {
+			v.Set(reflect.New(v.Type().Elem()))
+		}
+		fill(v.Elem(), m.P)
+	}
+}
+
+// ---- the log of stub calls, for oracles that talk about what the code asked its environment ---------
+
+var (
+	callArgs = map[string][][]interface{}{}
+	callOK   = map[string][]bool{}
+)
+
+// StubArgs is called by the replay overlay at the top of every stubbed function.
+func StubArgs(name string, args ...interface{}) { callArgs[name] = append(callArgs[name], args) }
+
+func fullStubName(short string) string {
+	for k := range callArgs {
+		if strings.HasSuffix(k, short) {
+			return k
+		}
+	}
+	return short
+}
+
+// CallCount: how often the stubbed function (named by a suffix of its full name) was called.
+func CallCount(short string) int { return len(callArgs[fullStubName(short)]) }
+
+// CallArg: argument j (receiver first) of call i of the stubbed function.
+func CallArg(short string, i, j int) interface{} { return callArgs[fullStubName(short)][i][j] }
+
+// CallOK: whether call i of the stubbed function succeeded.
+func CallOK(short string, i int) bool { return callOK[fullStubName(short)][i] }
